@@ -181,7 +181,7 @@ def model_check(module, cfg, name, workers=NCPU, timeout=3600, emit=False, const
 def _validate_one(args):
     d, module, cfg, timeout = args
     try:
-        r = run_tlc(d, module, cfg, workers=1, timeout=timeout, heap="3g")
+        r = run_tlc(d, module, cfg, workers=1, timeout=timeout, heap="2500m")
     except Inconclusive as e:
         return {"dir": d, "error": str(e)}
     res = {"dir": d, "ok": r.ok and r.rejected_at is None, "records": max(r.distinct - 1, 0), "wall": r.wall,
@@ -203,7 +203,7 @@ def _validate_one(args):
 
 
 _TKEY = re.compile(rb'^\{"(?:t|T)":(\d+)')
-MAX_TRACE_BYTES = int(os.environ.get("VERIF_MAX_TRACE_MB", "120")) * 1024 * 1024
+MAX_TRACE_BYTES = int(os.environ.get("VERIF_MAX_TRACE_MB", "80")) * 1024 * 1024
 
 
 def split_big_traces(trace_files):
